@@ -1190,12 +1190,16 @@ htp_status_t htp_tx_finalize(htp_tx_t *tx) {
 
     if (!htp_tx_is_complete(tx)) return HTP_OK;
 
+    // A TRANSACTION_COMPLETE callback is allowed to destroy the transaction,
+    // so the parser pointer has to be taken before the hook runs.
+    htp_connp_t *connp = tx->connp;
+
     // Run hook TRANSACTION_COMPLETE.
-    htp_status_t rc = htp_hook_run_all(tx->connp->cfg->hook_transaction_complete, tx);
+    htp_status_t rc = htp_hook_run_all(connp->cfg->hook_transaction_complete, tx);
     if (rc != HTP_OK) return rc;
 
     // In streaming processing, we destroy the transaction because it will not be needed any more.
-    if (tx->connp->cfg->tx_auto_destroy) {
+    if (connp->cfg->tx_auto_destroy) {
         htp_tx_destroy(tx);
     }
 
